@@ -114,6 +114,13 @@ class ProgGen:
         if r.random() < psub:
             self.n += 1
             pl = self.subrun_payload()
+            if r.random() < 0.3 and not (s[4] and "lazy" in s[4]):
+                # the subrun'd expression is a bare task call with a call-time option whose value is a lazy expression
+                oname, shape, val = r.choice([("memory", "call", 2), ("memory", "simple", 2), ("vcpus", "simple", 1),
+                                              ("extra", "nested", 3), ("executor", "call", "default")])
+                s = s[:4] + (dict(s[4] or {}, lazy=(oname, shape, (f"o{self.n}", "leaf", val, (), None))),)
+            if not dict(pl).get("aslist") and r.random() < 0.15:
+                pl = pl + (("wrap", r.choice(["catch", "seq"])),)      # ... or a scheduler-task call
             kids = (s,)
             if dict(pl).get("aslist") and r.random() < 0.6:
                 kids = (s, self.leaf(ctx, fail))
@@ -161,6 +168,11 @@ def _S(name, child, new_execution=False, **kw):
 _LEAVES = ("m", "list", 0, (("l1", "leaf", 1, (), None), ("l2", "leaf", 2, (), None)), None)
 _BOOM = ("f1", "raise", "boom1", (), None)
 _CTXLEAF = ("x0", "ctx", 0, (), None)
+_OPT = ("om", "leaf", 2, (), None)
+_LZ_OK = ("lz", "list", 5, (("l1", "leaf", 1, (), None),), {"lazy": ("memory", "simple", _OPT)})
+_LZ_FAIL = ("lf", "raise", "boom1", (), {"lazy": ("memory", "call", _OPT)})
+_LZ_NEST = ("ln", "leaf", 6, (), {"lazy": ("extra", "nested", _OPT)})
+_LZ_EXEC = ("le", "leaf", 7, (), {"lazy": ("executor", "call", ("oe", "leaf", "default", (), None))})
 # always run (thread executor): situations the random programs reach only sometimes
 # (name, program, cache flags[, config-level context])
 SCENARIOS = [
@@ -185,6 +197,15 @@ SCENARIOS = [
     ("new-then-extend-sequenced", ("q", "seq", 0, (_S("Sn", _LEAVES, True), _S("Se", _LEAVES, False)), None), [True]),
     ("new-and-extend-pending-together", ("p", "list", 0, (_S("Sn", _LEAVES, True), _S("Se", _LEAVES, False)), None), [True]),
     ("extend-then-new-sequenced", ("q", "seq", 0, (_S("Se", _LEAVES, False), _S("Sn", _LEAVES, True)), None), [True, True]),
+    # the subrun'd expression is a bare task call whose call-time option is a lazy expression (task call, SimpleExpression,
+    # nested in a dict/list, an executor name), succeeding and failing, both modes, cache on and off
+    ("lazy-option-extend", _S("S", _LZ_OK, False), [True, False]),
+    ("lazy-option-new", _S("S", _LZ_OK, True), [True, False]),
+    ("lazy-option-fail-extend", _S("S", _LZ_FAIL, False), [True]),
+    ("lazy-option-fail-new", ("c", "catch", 0, (_S("S", _LZ_FAIL, True),), None), [False]),
+    ("lazy-option-nested-and-executor", ("p", "list", 0, (_S("Sa", _LZ_NEST, False), _S("Sb", _LZ_EXEC, True)), None), [True]),
+    ("scheduler-task-call-subrun", ("p", "list", 0, (("Sa", "subrun", (("new_execution", False), ("executor", "default"), ("wrap", "catch")), (_BOOM,), None),
+                                                     ("Sb", "subrun", (("new_execution", True), ("executor", "default"), ("wrap", "seq")), (_LZ_OK, _CTXLEAF), None)), None), [True]),
     ("error-new-twins", ("q", "seq", 0, (("c1", "catch", 0, (_S("Sa", _BOOM, True),), None), ("c2", "catch", 0, (_S("Sb", _BOOM, True),), None)), None), [True, True]),
 ]
 
@@ -211,10 +232,10 @@ def base_ctx(cfgctx, runctx):
     return out or None
 
 
-def run_expr(db, expr_builder, cache=True, context=None, cfgctx=None):
+def run_expr(db, expr_builder, cache=True, context=None, cfgctx=None, dryrun=False):
     s = make_scheduler(db, cfgctx)
     try:
-        return {"result": s.run(expr_builder(), cache=cache, context=context or {})}, s
+        return {"result": s.run(expr_builder(), cache=cache, context=context or {}, dryrun=dryrun)}, s
     except Exception as e:  # noqa
         return {"error": (type(e).__name__, str(e))}, s
 
@@ -298,6 +319,78 @@ def db_rows(db):
     finally:
         con.close()
     return rows, execs
+
+
+# ------------------------------------------------------------------------------------------------ histories
+# The same sub-workflow, with an impure probe task inside, run 2-3 times on one backend under different run options,
+# (a) directly, (b) through subrun extending the execution, (c) through subrun with new_execution=True.  The external
+# state changes before every execution, so whether the probe really ran again is visible in the value and in its log.
+_PROBE = ("pr", "probe", "a", (), None)
+HIST_BODIES = {
+    "flat": ("m", "list", 0, (_PROBE, ("l1", "leaf", 1, (), None)), None),
+    "nested": ("o", "list", 1, (("c", "catch", 0, (("i", "list", 0, (_PROBE,), None),), None), ("pr2", "probe", "b", (), None)), None),
+}
+PROBE_TASK = "rvvm38.probe38"
+
+
+def hist_variants(body, sub_opts=()):
+    mk = lambda ne: ("S", "subrun", (("new_execution", ne), ("executor", "default")) + tuple(sub_opts), (body,), None)
+    return {"direct": body, "extend": mk(False), "new": mk(True)}
+
+
+def run_history(tmp, tag, spec, hist):
+    """hist: list of True / False (scheduler-level cache flag) / "dry" (cache on, dry run).  Returns per execution
+    dict(out, execs: real probe executions, new_execs: executions recorded, probe_rows_ok, detail)."""
+    from harness.progs import vm_c38
+    db = tmp / f"{tag}.db"
+    steps = []
+    for k, h in enumerate(hist):
+        (tmp / "state").write_text(f"s{k}")
+        (tmp / "log").write_text("")
+        before_rows, before_execs = db_rows(str(db)) if db.exists() else ({}, {})
+        out, _ = run_expr(db, lambda: vm_c38.call38(spec), cache=(h is not False), dryrun=(h == "dry"))
+        n = len((tmp / "log").read_text().split())
+        rows, execs = db_rows(str(db))
+        new = [j for j in rows if j not in before_rows]
+        probes = [j for j in new if rows[j][2] == PROBE_TASK and not rows[j][3]]
+        under_root = 0
+        for j in probes:
+            p = rows[j][0]
+            while p is not None and p in rows and rows[p][2] != ROOT_TASK:
+                p = rows[p][0]
+            under_root += 1 if (p is not None and p in rows) else 0
+        if "result" in out:
+            out = {"result": norm(out["result"])}
+        steps.append({"out": out, "execs": n, "new_execs": len([e for e in execs if e not in before_execs]),
+                      "probe_rows": len(probes), "probe_rows_under_root_task": under_root,
+                      "probe_row_execs": len({rows[j][1] for j in probes})})
+    return steps
+
+
+def compare_history(direct, other, variant, default_options=True):
+    """per execution: same outcome, same number of real probe executions, and the job tree the variant must leave"""
+    for k, (d, o) in enumerate(zip(direct, other)):
+        where = f"execution {k + 1}"
+        if d["out"] != o["out"]:
+            return f"{where}: directly {d['out']!r:.160}, through subrun ({variant}) {o['out']!r:.160}"
+        if d["execs"] != o["execs"]:
+            return (f"{where}: the impure inner task really ran {d['execs']} time(s) when evaluated directly and {o['execs']} "
+                    f"time(s) through subrun ({variant}); both returned {o['out']!r:.100}")
+        if o["probe_rows"] != o["execs"] or d["probe_rows"] != d["execs"]:
+            return f"{where}: {o['execs']} real executions but {o['probe_rows']} uncached Job rows of the inner task ({variant})"
+        if variant == "extend":
+            if o["new_execs"] != 1:
+                return f"{where}: a subrun extending the execution recorded {o['new_execs']} executions"
+            if o["probe_rows_under_root_task"] != o["probe_rows"]:
+                return f"{where}: inner jobs of the extending subrun are not recorded under the _subrun_root_task job"
+        if variant == "new":
+            started = 1 if d["execs"] > 0 else 0
+            # with full checking / a narrower scope the sub-scheduler is started even when everything inside is replayed
+            allowed = {1 + started} if default_options else {1 + started, 2}
+            if o["new_execs"] not in allowed and "error" not in o["out"]:
+                return (f"{where}: new_execution subrun recorded {o['new_execs']} executions, expected {1 + started} "
+                        f"(the sub-workflow {'ran' if started else 'was replayed'} when evaluated directly)")
+    return None
 
 
 def extend_invariant(db, root_jobs):
@@ -511,8 +604,8 @@ class Check(PropertyCheck):
     id = "C38"
     module = "Props.C38"
     theorems = ["C38_subrun_no_single_reduction", "C38_no_single_when_excluded", "C38_ultimate_only_when_shallow_backend",
-                "C38_check_cache_closed_form", "C38_get_cache_total", "C38_subrun_eq_direct", "C38_replayed_dict_eq_direct",
-                "C38_then_never_silent", "C38_forwarded_context_is_callers", "C38_root_key_separates_modes", "C38_extend_jobs_same_execution", "C38_extend_jobs_under_caller",
+                "C38_cache_false_is_cse_only", "C38_direct_cache_false_is_cse_only", "C38_guarded_downgrade_refuted", "C38_check_cache_closed_form", "C38_get_cache_total", "C38_subrun_eq_direct", "C38_replayed_dict_eq_direct",
+                "C38_then_never_silent", "C38_forwarded_context_is_callers", "C38_root_key_separates_modes", "C38_unwrapped_root_is_single_job", "C38_extend_jobs_same_execution", "C38_extend_jobs_under_caller",
                 "C38_extend_root_is_child_of_caller", "C38_new_execution_jobs_detached", "C38_nonvacuous"]
     allowed_axioms = []
     assumptions = [
@@ -526,7 +619,7 @@ class Check(PropertyCheck):
     ]
     rule = ("structured random programs over leaf/raise/ctx/list/seq/catch calls with twins, call options and contexts, "
             "with subrun nodes (new_execution on/off, cache_scope NONE/CSE/BACKEND/absent, check_valid full/shallow/absent, "
-            "single call or nested list, thread or process executor, nested subruns, the same subrun twice), each run one to "
+            "single call / nested list / scheduler-task call, call-time options with lazy values, thread or process executor, nested subruns, the same subrun twice), each run one to "
             "three times on one backend with cache=True/False; plus the exhaustive grid of check_cache arguments x backend "
             "answers and of _get_cache option combinations. A program is non-trivial if it has >= 3 calls; distinct by repr")
 
@@ -869,6 +962,54 @@ class Check(PropertyCheck):
                 hit[key] = (spec, out)
         return hit
 
+    def history_plan(self):
+        T, F, D = True, False, "dry"
+        if self.tier == "quick":
+            return [("flat", [T, F], ()), ("flat", [T, F, T], ()), ("flat", [T, D], ()), ("nested", [T, T, F], ())]
+        plan = []
+        hists = [list(h) for n in (2, 3) for h in itertools.product([T, F], repeat=n)] + [[T, D], [F, D, T], [T, F, D]]
+        for b in HIST_BODIES:
+            for h in hists:
+                plan.append((b, h, ()))
+        for so in ((("check_valid", "shallow"),), (("cache_scope", "BACKEND"),), (("check_valid", "full"),), (("cache_scope", "CSE"),),
+                   (("cache_scope", "NONE"),)):
+            for h in ([T, F], [T, T, F], [F, T]):
+                plan.append(("flat", h, so))
+        return plan
+
+    def one_history(self, tmp, tag, bname, hist, sub_opts, only=None):
+        """runs the three variants of one history; returns [(variant, problem)] (problem None = agrees)"""
+        v = hist_variants(HIST_BODIES[bname], sub_opts)
+        for attempt in range(3):
+            res = {n: run_history(tmp, f"h{tag}_{attempt}_{n}", sp, hist) for n, sp in v.items() if only in (None, n) or n == "direct"}
+            infra = [st["out"] for r in res.values() for st in r if is_infra(st["out"])]
+            for p in tmp.glob("h*.db"):
+                p.unlink()
+            if not infra:
+                return [(n, compare_history(res["direct"], res[n], n, not sub_opts)) for n in res if n != "direct"], res
+            self.infra.append({"spec": f"history {bname} {hist}", "error": infra[0]["error"], "attempt": attempt})
+            self.stat("infrastructure failure (program re-run)", infra[0]["error"][0])
+        return [], res
+
+    def histories(self, tmp):
+        os.environ["RV_C38_PROBE_DIR"] = str(tmp)
+        self.hist_problems = []
+        self.hist_n = 0
+        for i, (bname, hist, sub_opts) in enumerate(self.history_plan()):
+            results, res = self.one_history(tmp, i, bname, hist, sub_opts)
+            for variant, problem in results:
+                self.hist_n += 1
+                self.evaluations += len(hist)
+                self.count(("history", bname, repr(hist), repr(sub_opts), variant))
+                self.stat("histories", f"{variant}: " + " ".join("dry" if h == "dry" else ("cache" if h else "no-cache") for h in hist))
+                if problem:
+                    self.hist_problems.append({"body": bname, "history": hist, "subrun_options": list(sub_opts), "variant": variant,
+                                               "problem": problem})
+            if i == 0:
+                self.sample({"history": hist, "sub-workflow": repr(HIST_BODIES[bname]),
+                             "per execution (direct)": [(st["out"], st["execs"]) for st in res["direct"]],
+                             "per execution (subrun, new execution)": [(st["out"], st["execs"]) for st in res.get("new", [])]}, 8)
+
     def e2e(self):
         from harness.progs import vm_c38
         n_thread, n_proc, budget = (22, 2, 75.0) if self.tier == "quick" else (500, 40, 1300.0)
@@ -884,6 +1025,7 @@ class Check(PropertyCheck):
         try:
             os.chdir(tmp)
             self.lock_hits = self.witness_lock(tmp)
+            self.histories(tmp)
             allow_noprov = not self.lock_hits
             self.stat("generator", "prov=False calls " + ("included" if allow_noprov else "excluded (known sqlite lock-up reproduces)"))
             plan = [False] * n_thread
@@ -1101,6 +1243,15 @@ class Check(PropertyCheck):
             for b in rec["rows_bad"][:1]:
                 nb += 1
                 self.findings.append(Finding(f"job-rows:{spec!r}"[:200], b, rp))
+        for hp in getattr(self, "hist_problems", []):
+            nb += 1
+            hs = " ".join("dry" if h == "dry" else ("cache" if h else "no-cache") for h in hp["history"])
+            self.findings.append(Finding(f"history:{hp['variant']}:{hp['body']}:{hs}:{hp['subrun_options']}"[:200],
+                                         f"the same sub-workflow run {len(hp['history'])} times on one backend ({hs}), external state changed "
+                                         f"before each run: {hp['problem']}",
+                                         {"kind": "history", "body": hp["body"], "sub_workflow": repr(HIST_BODIES[hp["body"]]),
+                                          "history": hp["history"], "subrun_options": hp["subrun_options"], "variant": hp["variant"]}))
+        self.stat("oracle", "histories compared (variant x history)", getattr(self, "hist_n", 0))
         # a time-dependent insert race between the schedulers sharing the backend (seen, then passed on a re-run)
         races = [x for x in getattr(self, "infra", []) if x["error"][0] == "IntegrityError"]
         if races:
@@ -1183,6 +1334,26 @@ class Check(PropertyCheck):
                 print("replay: agrees with the reference now" if clean else
                       "replay: every attempt lost the insert race between the schedulers sharing the backend (the registered "
                       "time-dependent finding); nothing else was observed")
+                return 0
+            finally:
+                os.chdir("/")
+                shutil.rmtree(tmp, ignore_errors=True)
+        if r.get("kind") == "history":
+            tmp = scratch_dir("rv_c38r_")
+            self.infra = []
+            try:
+                os.chdir(tmp)
+                os.environ["RV_C38_PROBE_DIR"] = str(tmp)
+                so = tuple(tuple(x) for x in r.get("subrun_options") or ())
+                results, res = self.one_history(tmp, 0, r["body"], r["history"], so, only=r["variant"])
+                for st_d, st_o in zip(res["direct"], res.get(r["variant"], [])):
+                    print("replay:   directly", st_d["out"], f"(inner task ran {st_d['execs']}x)  |  subrun {r['variant']}:", st_o["out"],
+                          f"(ran {st_o['execs']}x, {st_o['new_execs']} execution(s) recorded)")
+                for variant, problem in results:
+                    if problem:
+                        print("replay:", problem)
+                        return 1
+                print("replay: subrun and direct evaluation agree on every execution of this history now")
                 return 0
             finally:
                 os.chdir("/")
